@@ -94,6 +94,10 @@ def run(ck):
     # accepts exactly the declared spellings (rules C01-T/D on the witness interfaces)
     import c01
     c01.rule_T(ck, T="C04-T", D="C04-D")
+    # ... and at run time a mnemonic that the node in force does not have ends the header parser with UndefinedHeader (no
+    # second look from the root): the walk rule of C01
+    with ck.under("C01-", "C04-C01"):
+        c01.rule_W(ck, lib)
     # a response is written only for a query bound to a query handler: execute picks the slot by the query flag and refuses
     # an empty slot (the rule of C01, necessary here as well)
     import c01
